@@ -793,6 +793,7 @@ class C17(Property):
         # get_case by name: variable sets and values against the live snapshot
         cases_out = []
         mism = []
+        read_mut = []
         if res['unique']:
             for e in log:
                 try:
@@ -814,8 +815,12 @@ class C17(Property):
                 got['counter'] = c.counter
                 got['name'] = c.name
                 cases_out.append(got)
+                rm = self.read_then_mutate(c)
+                if rm:
+                    read_mut.append([e['name']] + rm)
         res['cases'] = cases_out
         res['value_mismatch'] = mism[:10]
+        res['read_mutation'] = read_mut[:5]
         # get_case by index
         n = len(log)
         idx = {0, n - 1, n, -1, -n, -n - 1, qrng.randrange(max(n, 1)), qrng.randrange(max(n, 1))}
@@ -841,6 +846,48 @@ class C17(Property):
             if k in res:
                 res[k] = Heavy(res[k])
         return res
+
+    @staticmethod
+    def read_then_mutate(c):
+        """Reading a case must not be able to change the record: edit, in place, every array returned by
+        get_design_vars / get_responses / get_objectives / get_constraints and read the same Case again
+        through outputs[...], get_val and a second call of the getter.  Returns a description of the first
+        value that changed, or None."""
+        if c.outputs is None:
+            return None
+        names = sorted(c.outputs.absolute_names())
+        before = {n: np.array(c.outputs[n], dtype=float, copy=True) for n in names}
+        getters = ('get_design_vars', 'get_responses', 'get_objectives', 'get_constraints')
+        for g in getters:
+            for kw in ({}, {'scaled': False, 'use_indices': False}):
+                try:
+                    first = getattr(c, g)(**kw)
+                except Exception:
+                    continue
+                ref = {k: np.array(v, dtype=float, copy=True) for k, v in first.items()}
+                for v in first.values():
+                    if isinstance(v, np.ndarray):
+                        try:
+                            v *= 2.0
+                            v += 1.0
+                        except (ValueError, TypeError):     # read-only arrays are fine
+                            pass
+                for n in names:
+                    if not np.array_equal(np.asarray(c.outputs[n], dtype=float), before[n]):
+                        return [g, 'outputs[%s]' % n, before[n].ravel().tolist()[:3],
+                                np.asarray(c.outputs[n], dtype=float).ravel().tolist()[:3]]
+                    try:
+                        gv = np.asarray(c.get_val(n), dtype=float)
+                    except Exception:
+                        continue
+                    if not np.array_equal(gv, before[n]):
+                        return [g, 'get_val(%s)' % n, before[n].ravel().tolist()[:3], gv.ravel().tolist()[:3]]
+                second = getattr(c, g)(**kw)
+                for k, v in second.items():
+                    if k in ref and not np.array_equal(np.asarray(v, dtype=float), ref[k]):
+                        return [g, 'second %s()[%s]' % (g, k), ref[k].ravel().tolist()[:3],
+                                np.asarray(v, dtype=float).ravel().tolist()[:3]]
+        return None
 
     def env_of(self, p, a):
         """Variables in scope of an attachment point, with the names the selection rule matches."""
@@ -993,6 +1040,9 @@ class C17(Property):
         if impl['unique']:
             if impl['value_mismatch']:
                 return {'what': 'stored value differs from the live model', 'detail': impl['value_mismatch'][:3]}
+            if impl.get('read_mutation'):
+                return {'what': 'editing the arrays returned by a Case getter changed the recorded values',
+                        'detail': impl['read_mutation'][:3]}
             for e, log_e, got in zip(ents, impl['log'], impl['cases']):
                 if 'err' in got:
                     return {'what': 'get_case(name) raised', 'name': e['name'], 'code': got['err']}
